@@ -344,7 +344,8 @@ func init() {
 					if c.Expired() {
 						return
 					}
-					cs := &core.Case{Q: q, Data: d.data, W: w, O: core.Opts{Optimizers: "none"}, Note: d.name}
+					// the storage shares its label slices between calls, as a TSDB head does
+					cs := &core.Case{Q: q, Data: d.data, W: w, O: core.Opts{Optimizers: "none"}, Note: d.name, ShareLabels: true}
 					if !c.Progress(cs) {
 						continue
 					}
